@@ -1,0 +1,81 @@
+//! Verification hook (C19): mounted as `crate::gossip::verif_fetch` (a child of `gossip`, because
+//! `gossip::fetch` is a private module, so `fetch::Queue` / `fetch::RequestItem` cannot be named from
+//! `crate::verif`). Thin wrappers, no behaviour of their own.
+use std::sync::Arc;
+
+use zksync_concurrency::{ctx, oneshot, sync};
+use zksync_consensus_engine::{BlockStoreState, EngineManager};
+use zksync_consensus_roles::validator;
+
+use super::{fetch, Network};
+use crate::Config;
+
+/// Public newtype around the crate-private `gossip::fetch::Queue`. Adds no behaviour.
+#[derive(Default)]
+pub struct Queue(fetch::Queue);
+
+impl Queue {
+    /// `Queue::default`.
+    pub fn new() -> Self {
+        Self::default()
+    }
+
+    /// `Queue::current_blocks`.
+    pub fn current_blocks(&self) -> Vec<u64> {
+        self.0.current_blocks()
+    }
+
+    /// `Queue::request(ctx, RequestItem::Block(n))`.
+    pub async fn request(
+        &self,
+        ctx: &ctx::Ctx,
+        n: validator::BlockNumber,
+    ) -> ctx::OrCanceled<()> {
+        self.0.request(ctx, fetch::RequestItem::Block(n)).await
+    }
+
+    /// `Queue::accept_block`.
+    pub async fn accept_block(
+        &self,
+        ctx: &ctx::Ctx,
+        available: &mut sync::watch::Receiver<BlockStoreState>,
+    ) -> ctx::OrCanceled<(validator::BlockNumber, oneshot::Sender<()>)> {
+        self.0.accept_block(ctx, available).await
+    }
+}
+
+/// The gossip network state with only what the block fetcher touches exposed:
+/// `Network::run_block_fetcher` and the network's own `fetch_queue`.
+pub struct Fetcher(Arc<Network>);
+
+impl Fetcher {
+    /// `gossip::Network::new` (no consensus component attached: the channel's receiver is dropped).
+    pub fn new(cfg: Config, engine_manager: Arc<EngineManager>) -> Self {
+        let (send, _recv) = sync::prunable_mpsc::unpruned_channel();
+        Self(Network::new(
+            cfg,
+            engine_manager,
+            Some(validator::EpochNumber(0)),
+            send,
+        ))
+    }
+
+    /// `Network::run_block_fetcher`.
+    pub async fn run_block_fetcher(&self, ctx: &ctx::Ctx) {
+        self.0.run_block_fetcher(ctx).await
+    }
+
+    /// `fetch_queue.current_blocks`.
+    pub fn current_blocks(&self) -> Vec<u64> {
+        self.0.fetch_queue.current_blocks()
+    }
+
+    /// `fetch_queue.accept_block`.
+    pub async fn accept_block(
+        &self,
+        ctx: &ctx::Ctx,
+        available: &mut sync::watch::Receiver<BlockStoreState>,
+    ) -> ctx::OrCanceled<(validator::BlockNumber, oneshot::Sender<()>)> {
+        self.0.fetch_queue.accept_block(ctx, available).await
+    }
+}
